@@ -1,5 +1,6 @@
 import Lean.Data.Json
 import Emboss.Model.Json
+import Emboss.Model.JsonText
 import Emboss.Generated.IrSchema
 import Driver.Util
 open Emboss.Json Driver
@@ -13,6 +14,10 @@ Line protocol of `model_c18` (schema = the regenerated `Generated.schema`):
 * `LOCSTR sl sc el ec d y` → `loc ok=<0|1> <str>`
 * `LOCPARSE <json string>` → `pos sl sc el ec d y` | `pos none`
 * `SCHEMA`             → `schema ok=<0|1> classes=<n>`
+* `PARSE <json text>`  → `parse ok <re-rendered text>` | `parse err` | `parse out-of-fuel`
+                         (the model's own reader `parseJson`, not Lean's JSON library)
+* `FROMJSON <Class> <json text>` → `dec <neutral>` | `dec none` | `dec out-of-fuel`
+                         (`fromJson` = `parseJson` then `fromDict`: text level)
 
 `<neutral>` is the tagged JSON dump of a value written by the harness by walking the
 dataclass itself: `null` | `{"s":str}` | `{"i":"dec"}` | `{"b":bool}` | `{"e":"dec"}` |
@@ -121,6 +126,20 @@ def handle (line : String) : String :=
            b01 l.disjoint, b01 l.synthetic]
       | none => "pos none"
     | _ => "bad-op"
+  | "PARSE" =>
+    match parseJson arg with
+    | .ok d _ => "parse ok " ++ d.render
+    | .err => "parse err"
+    | .outOfFuel => "parse out-of-fuel"
+  | "FROMJSON" =>
+    let (c, js) := splitFirst arg
+    match parseJson js with
+    | .ok d _ =>
+      match fromDict S c d with
+      | some m => "dec " ++ (neutral m).render
+      | none => "dec none"
+    | .err => "dec none"
+    | .outOfFuel => "dec out-of-fuel"
   | "SCHEMA" => "schema ok=" ++ b01 (schemaOk S) ++ " classes=" ++ toString S.classes.length
   | _ => "bad-op"
 
